@@ -190,6 +190,10 @@ def plot_params_2d(input_fits, parameter_x, parameter_y, output_dir=None,
         # Get filtered and sorted table of parameters
         tsorted = info.filter_table(t)
 
+        from .utils import verif_hook
+        if verif_hook.enabled():
+            verif_hook.record('plot_params_2d', source=info.source.name, model_name=list(info.model_name), table=tsorted)
+
         pfits = ax.scatter(tsorted[parameter_x], tsorted[parameter_y], c='black', s=10)
 
         if plot_name:
